@@ -214,7 +214,7 @@ def opStepUnview (h : Heap) (basePh pmv : Nat) (chain : List ViewFn) (mutArr : A
     h.modT v ({ · with grad := none, viewGrad := none })) h
   let c : Bool := !(vars.any fun v => !(h.t v).const)
   let (h, f) := h.fresh
-  let h := h.setOp f { kind := .unview chain, vars := vars }
+  let h := h.setOp f { kind := .unview chain mutArr.d.strides, vars := vars }
   let h := vars.foldl (fun h v => h.modT v fun t => { t with ops := f :: t.ops }) h
   let (h, o) := h.fresh
   (h.setT o { data := mutArr, const := c, creator := some f }, o)
@@ -260,7 +260,7 @@ def inPlaceOp (h : Heap) (roots : List Nat) (self : Nat) (kind : Kind) (inputs :
   let (h, g) ← withHeap h (mkDupGraph h live baseId)
   -- mutant_base = graph.base.tensor.copy()
   let bt := h.t g.base.tensor
-  let (h, mutArr) := h.newArr (h.val bt.data)
+  let (h, mutArr) := h.copyArrK bt.data
   let mutConst := bt.const
   -- `graph.get_path_to_base(self)` raises KeyError when `self` still names the base but is no longer
   -- among its (transitive) view children (they were cleared with the base's graph)
